@@ -12,3 +12,4 @@ cargo build --release --offline --target-dir target
 cargo build --release --offline --target-dir target-mime03 --features mime03
 cargo build --release --offline --target-dir target-http-types --features http-types
 cargo build --release --offline --target-dir target-sass --features sass
+cargo build --release --offline --target-dir target-mime03-sass --features mime03,sass
